@@ -1,10 +1,12 @@
 package main
 
 import (
+	"bytes"
 	"encoding/json"
 	"flag"
 	"fmt"
 	"os"
+	"os/exec"
 	"strings"
 	"time"
 
@@ -43,9 +45,11 @@ func main() {
 		maxRuns := fs.Int("max-runs", 0, "")
 		out := fs.String("out", "", "")
 		wtier := fs.String("tier", "quick", "")
+		startRun := fs.Int("start-run", 0, "")
+		progress := fs.String("progress", "", "")
 		_ = fs.Parse(os.Args[2:])
 		spec := sim.SpecFor(*prop, *wtier)
-		wo := sim.RunWorker(spec, *seed, *worker, time.Duration(*budget)*time.Second, *maxRuns)
+		wo := sim.RunWorker(spec, *seed, *worker, time.Duration(*budget)*time.Second, *maxRuns, *startRun, *progress)
 		b, _ := json.Marshal(wo)
 		if err := os.WriteFile(*out, b, 0o644); err != nil {
 			fmt.Fprintln(os.Stderr, err)
@@ -65,7 +69,7 @@ func main() {
 		counts := map[string]int{}
 		for i := 0; i < *n; i++ {
 			s := sim.Generate(*seed+int64(i), *profile)
-			res := sim.Execute(s, sim.ExecOpts{KeepTrace: *verbose, Trace: *trace, Queries: *queries, BankFailEnum: *enum, MaxEnumBlocks: 60})
+			res := sim.Execute(s, sim.ExecOpts{KeepTrace: *verbose, Trace: *trace, Queries: *queries, BankFailEnum: *enum, EnumAll: *enum, MaxEnumBlocks: 60})
 			if res.HarnessErr != "" {
 				fmt.Printf("seed %d HARNESS %s\n", *seed+int64(i), res.HarnessErr)
 			}
@@ -140,6 +144,32 @@ func main() {
 			}
 			fmt.Println("recorded violation did not reproduce")
 			return
+		}
+		if os.Getenv("VERIF_REPLAY_CHILD") == "" {
+			// run the replay in a child process: a violation may be a crash of the node process itself
+			self, _ := os.Executable()
+			cmd := exec.Command(self, "replay", os.Args[2])
+			cmd.Env = append(os.Environ(), "VERIF_REPLAY_CHILD=1")
+			var buf bytes.Buffer
+			cmd.Stdout, cmd.Stderr = &buf, &buf
+			err := cmd.Run()
+			out := buf.String()
+			for _, ln := range strings.Split(out, "\n") {
+				if !strings.HasPrefix(ln, "sellingReserve: ") && !strings.HasPrefix(ln, "auction.GetSellingCoin(): ") && ln != "" {
+					fmt.Println(ln)
+				}
+			}
+			if err == nil {
+				return
+			}
+			if ee, ok := err.(*exec.ExitError); ok && ee.ExitCode() == 1 {
+				os.Exit(1)
+			}
+			if strings.Contains(out, "panic:") || strings.Contains(out, "fatal error:") {
+				fmt.Printf("the node process died while executing the replay\nVIOLATION property=C07 replay=%s\n", os.Args[2])
+				os.Exit(1)
+			}
+			os.Exit(2)
 		}
 		ok, res, rf, err := sim.Replay(os.Args[2])
 		if err != nil {
